@@ -117,6 +117,7 @@ def sampleSummary (o : Ops Float32) (fix pre : Bool) (P : Params Float32) (r : F
     let c :=
       if !guardOK o sv then "guard" else
       let flags :=
+        (if fix && !scaleOK o (L.map (·.val)) (L1.map (·.val)) then ["shift"] else []) ++
         (if scaleOK o (L1.map (·.val)) sv then [] else ["scale"]) ++
         (if softmaxOK o sv pv then [] else ["softmax"]) ++
         (match minP o P.minP fp with
